@@ -430,11 +430,16 @@ struct CheckStats {
     overlapping_reads: u64,
     gets_judged: u64,
     iter_items_judged: u64,
+    /// observations judged by the idle-deadline rule / of those, made at a clock reading at which
+    /// only another thread's get (not the last write) kept the entry alive
+    idle_judged: u64,
+    idle_kept_alive_by_a_get: u64,
 }
 
-fn check_history(evs: &[Ev], final_gets: &[(u32, Option<u64>)], final_stamp: u64, ttl: Option<u64>) -> (Vec<Violation>, CheckStats) {
+fn check_history(evs: &[Ev], final_gets: &[(u32, Option<u64>)], final_stamp: u64, ttl: Option<u64>, tti: Option<u64>) -> (Vec<Violation>, CheckStats) {
     let mut out = Vec::new();
-    let mut st = CheckStats { overlapping_reads: 0, gets_judged: 0, iter_items_judged: 0 };
+    let contains_who = String::from("contains_key");
+    let mut st = CheckStats { overlapping_reads: 0, gets_judged: 0, iter_items_judged: 0, idle_judged: 0, idle_kept_alive_by_a_get: 0 };
     let mut by_key: BTreeMap<u32, Vec<&Ev>> = BTreeMap::new();
     let inv_all: Vec<&Ev> = evs.iter().filter(|e| e.op == COp::InvalidateAll).collect();
     let iters: Vec<&Ev> = evs.iter().filter(|e| e.op == COp::Iter && e.done).collect();
@@ -514,6 +519,95 @@ fn check_history(evs: &[Ev], final_gets: &[(u32, Option<u64>)], final_stamp: u64
             }
         }
         reads.sort_by_key(|r| r.0.call);
+        if let Some(tti) = tti {
+            // Idle deadline (C06). Whatever the cache compares with the deadline is the stamp of an
+            // insert of the key or of a successful get of the key (any value: an update shares the
+            // timestamps) that began before the observation returned; a stamp is read inside its call,
+            // so it is at most the clock reading at that call's return (unknown = infinite for a call
+            // that had not returned). An observation of a value at clock reading c is legitimate only
+            // if one of those stamps is > c - tti. Gets justify each other, so the rule is a least
+            // fixpoint: inserts justify unconditionally; a get justifies only once it is justified.
+            // (cand: (call, ret, clock_call, clock_ret, is_get))
+            let mut just: Vec<(u64, u64)> = kev // (call stamp, upper bound of its time stamp)
+                .iter()
+                .filter(|e| matches!(e.op, COp::Insert { .. }))
+                .map(|e| (e.call, if e.done { e.clock_ret } else { u64::MAX }))
+                .collect();
+            let mut open: Vec<(&Ev, u64, bool, &String)> = Vec::new(); // (event, value, can justify others, who)
+            for (e, res, _, who, is_iter) in &reads {
+                if let Some(v) = res {
+                    open.push((e, *v, !*is_iter, who));
+                }
+            }
+            for e in kev.iter().filter(|e| matches!(e.op, COp::Contains { .. }) && e.done && e.result.is_some()) {
+                // contains_key never counts as an access, but it must not see an idle entry either
+                open.push((e, 0, false, &contains_who));
+            }
+            let n_open = open.len();
+            st.idle_judged += n_open as u64;
+            let by_write_only: HashSet<usize> = {
+                let mut j = just.clone();
+                j.sort();
+                let mut pm = Vec::with_capacity(j.len());
+                let mut m = 0u64;
+                for x in &j {
+                    m = m.max(x.1);
+                    pm.push(m);
+                }
+                open.iter()
+                    .enumerate()
+                    .filter(|(_, o)| {
+                        let n = j.partition_point(|x| x.0 < o.0.ret);
+                        n > 0 && o.0.clock_call < pm[n - 1].saturating_add(tti)
+                    })
+                    .map(|(i, _)| i)
+                    .collect()
+            };
+            let mut rounds = 0;
+            loop {
+                rounds += 1;
+                just.sort();
+                let mut pm = Vec::with_capacity(just.len());
+                let mut m = 0u64;
+                for x in &just {
+                    m = m.max(x.1);
+                    pm.push(m);
+                }
+                let mut still = Vec::new();
+                let mut added: Vec<(u64, u64)> = Vec::new();
+                for o in open.into_iter() {
+                    let n = just.partition_point(|x| x.0 < o.0.ret);
+                    let ok = n > 0 && o.0.clock_call < pm[n - 1].saturating_add(tti);
+                    if ok {
+                        if o.2 {
+                            added.push((o.0.call, o.0.clock_ret));
+                        }
+                    } else {
+                        still.push(o);
+                    }
+                }
+                let progressed = !added.is_empty();
+                just.extend(added);
+                open = still;
+                if !progressed || open.is_empty() || rounds > 200 {
+                    break;
+                }
+            }
+            st.idle_kept_alive_by_a_get += n_open.saturating_sub(by_write_only.len()).saturating_sub(open.len()) as u64;
+            if rounds <= 200 {
+                for (e, v, is_get, who) in open.iter().take(3) {
+                    out.push(Violation {
+                        props: if e.op == COp::Iter { vec!["C16", "C06"] } else if *is_get { vec!["C06", "C02"] } else { vec!["C06"] },
+                        sig: "concurrent:tti-expired-value".into(),
+                        detail: format!(
+                            "{} of key {} at clock {} observed the entry (value {}) although every insert of the key and every justified get of it that began before the observation returned was stamped at or before clock {} - time_to_idle {}",
+                            who, k, e.clock_call, v, e.clock_call, tti
+                        ),
+                        op_index: 0,
+                    });
+                }
+            }
+        }
         for (e, res, begin, who, is_iter) in &reads {
             st.gets_judged += 1;
             if *is_iter {
@@ -1141,10 +1235,12 @@ fn run_program(prog: &Prog, mode: &str, strategy: Strategy, sseed: u64, stats: &
             }
         }
     }
-    let (hv, cs) = check_history(&evs, &finals, fstamp, prog.cfg.ttl);
+    let (hv, cs) = check_history(&evs, &finals, fstamp, prog.cfg.ttl, prog.cfg.tti);
     out.violations.extend(check_sync_backlog(&evs, stats));
     out.overlapping_reads = cs.overlapping_reads;
     stats.add("gets_judged", cs.gets_judged);
+    stats.add("observations_judged_by_idle_deadline_rule", cs.idle_judged);
+    stats.add("observations_kept_alive_only_by_another_get", cs.idle_kept_alive_by_a_get);
     stats.add("iteration_items_judged_against_history", cs.iter_items_judged);
     out.violations.extend(hv);
     out.violations.extend(pre_q);
@@ -1268,6 +1364,7 @@ fn mode_programs(args: &Args, mode: &str) {
     let nsched = args.u64("schedules", 10);
     let big_every = args.u64("big-every", 12).max(1);
     let chase_every = args.u64("chase-every", 5).max(1);
+    let expiry_every = args.u64("expiry-every", 5).max(1);
     let out_path = args.str("out", "");
     let mut report = Report { engine: format!("conmon-{}", mode), ..Default::default() };
     let mut master = Rng::new(seed ^ 0xC0C0);
@@ -1285,6 +1382,8 @@ fn mode_programs(args: &Args, mode: &str) {
         let mut rng = master.fork();
         let prog = if mode == "park" {
             gen_park_prog(&mut rng)
+        } else if mode == "chase" && rng.chance(1, expiry_every) {
+            gen_expiry_chase_prog(&mut rng, 10)
         } else if mode == "chase" && rng.chance(1, 5) {
             gen_storm_prog(&mut rng, 10)
         } else if mode == "chase" {
@@ -1409,6 +1508,70 @@ fn gen_chase_prog(rng: &mut Rng, scale: u64) -> Prog {
     }
     if rng.chance(1, 2) {
         // a thread that keeps running the maintenance explicitly, beside the nested runs
+        threads.push((0..rng.range(50, 200) * scale).map(|_| COp::Sync).collect());
+    }
+    Prog { cfg, threads, idle: false }
+}
+
+/// "Expiry chase": the only reason for a value to disappear is its deadline. One or two writers keep
+/// re-inserting one or two keys and move the clock by about one expiry period after each insert;
+/// readers read at full speed (get, sometimes contains_key / iteration). With time_to_live a get must
+/// never return a value written a full period before the get began; with time_to_idle an observation
+/// must be justified by an insert or a justified get stamped less than a period before it.
+fn gen_expiry_chase_prog(rng: &mut Rng, scale: u64) -> Prog {
+    let keys = rng.range(1, 2) as u32;
+    let mut cfg = gen_cfg(rng, keys);
+    cfg.cap = None;
+    cfg.weigher = false;
+    let d = *rng.pick(&[2u64, 3, 5, 10, 1000]);
+    match rng.below(3) {
+        0 => {
+            cfg.ttl = Some(d);
+            cfg.tti = None;
+        }
+        1 => {
+            cfg.ttl = None;
+            cfg.tti = Some(d);
+        }
+        _ => {
+            cfg.ttl = Some(d * 2);
+            cfg.tti = Some(d);
+        }
+    }
+    let mut threads = Vec::new();
+    // keep-alive variant: the key is written rarely; between two writes only gets (the writer's own
+    // and the readers') can keep it alive, in steps of less than one idle period
+    let keepalive = cfg.tti.is_some() && rng.chance(1, 2);
+    for _ in 0..rng.range(1, 2) {
+        let mut ops = Vec::new();
+        for i in 0..rng.range(40, 120) * scale {
+            let k = rng.below(keys as u64) as u32;
+            if !keepalive || i % 8 == 0 {
+                ops.push(COp::Insert { k, w: 1 });
+            }
+            if keepalive || rng.chance(1, 4) {
+                ops.push(COp::Get { k });
+            }
+            if keepalive && rng.chance(1, 3) {
+                ops.push(COp::Sync);
+            }
+            ops.push(COp::Advance { ns: if keepalive && rng.chance(5, 6) { d - 1 } else { match rng.below(4) { 0 => d - 1, 1 => d + 1, _ => d } } as u32 });
+        }
+        threads.push(ops);
+    }
+    for _ in 0..rng.range(2, 4) {
+        let mut ops = Vec::new();
+        for _ in 0..rng.range(200, 500) * scale {
+            let k = rng.below(keys as u64) as u32;
+            ops.push(match rng.below(16) {
+                0 => COp::Iter,
+                1 => COp::Contains { k },
+                _ => COp::Get { k },
+            });
+        }
+        threads.push(ops);
+    }
+    if rng.chance(1, 2) {
         threads.push((0..rng.range(50, 200) * scale).map(|_| COp::Sync).collect());
     }
     Prog { cfg, threads, idle: false }
